@@ -31,23 +31,33 @@ def search(seed=0, windows=40):
            [pep(cf=x) for x in (0.49, 0.5, 0.9, 0.91)] + [pep(er=x) for x in (0.1, 0.11)] + [pep(vh="x"), pep(sh="x")] + \
            [pep(ca=x) for x in (0.79, 0.8, 0.4, 1.0)] + [pep(ol=30, rt=9, cf=0.1), pep(ol=30, rt=9, cf=0.1, ca=0.3)]
     ops = ["inspect", "flag", "reset", "false_alarm_reset"]
-    for depth in (1, 2, 3):
+    for depth in (1, 2, 3, 4):
         for p_seq in itertools.product(range(len(peps)), repeat=1):
             for op_seq in itertools.product(ops, repeat=depth):
                 n += 1
                 t = TCell(profile=prof, repeated_anomaly_threshold=2, anergy_threshold=2)
+                m_flag, m_streak = False, 0          # reference model of the pending second signals (flag until a handled response; anomaly streak)
                 for op in op_seq:
                     if op == "flag":
                         t.flag_manually("x")
+                        m_flag = True
                     elif op == "reset":
                         t.reset()
+                        m_flag, m_streak = False, 0
                     elif op == "false_alarm_reset":
                         t.reset_without_confirmation()
+                        m_streak = 0
                     else:
                         p = peps[p_seq[0]]
                         was_anergic = t.is_anergic
                         flagged = t.manual_flag is not None
                         r = t.inspect(p)
+                        if not was_anergic:
+                            m_streak = 0 if inb(p) else m_streak + 1
+                            second = m_flag or (p.canary_accuracy is not None and p.canary_accuracy < 0.8) or m_streak >= 2
+                            if r.threat_level in (ThreatLevel.CONFIRMED, ThreatLevel.CRITICAL) and not second:
+                                return n, (f"TCell: {r.threat_level.name}/{r.action.name} (signal2={r.signal2.name}) although no second signal is pending: "
+                                           f"history {op_seq} on peptide#{p_seq[0]} (flag pending={m_flag}, anomaly streak={m_streak})")
                         if r.threat_level in (ThreatLevel.CONFIRMED, ThreatLevel.CRITICAL) and (inb(p) or r.signal2 == Signal2.NONE):
                             return n, f"TCell: {r.threat_level.name} without two signals: in_baseline={inb(p)} signal2={r.signal2.name} ops={op_seq} peptide#{p_seq[0]}"
                         if inb(p) and (r.threat_level != ThreatLevel.NONE or r.action != ResponseAction.IGNORE):
@@ -117,7 +127,7 @@ def search(seed=0, windows=40):
 if __name__ == "__main__":
     seed = int(os.environ.get("VERIF_SEED", "0") or 0)
     n, bad = search(seed, 40 if "--thorough" not in sys.argv else 400)
-    out = {"status": "ok" if bad is None else "violation", "bound": "24 fingerprints across every bound x op sequences depth<=3; Treg table x rules; 40 random training windows (seeded)",
+    out = {"status": "ok" if bad is None else "violation", "bound": "24 fingerprints across every bound x op sequences depth<=4 (with a reference model of pending second signals); Treg table x rules; 40 random training windows (seeded)",
            "cases": n}
     if bad:
         out["detail"] = bad
